@@ -9,7 +9,7 @@
                a declared array length is [< 2^W] (true of all [l < 2^32] at W = 64, of
                [l < 2^31] at W = 32: [op_guard_w64], [op_guard_w32]);
              - [op_ids]: an interned id was handed out by the interner (otherwise the code panics).
-           Outside the guard the property is FALSE at W = 32: [C03_refuted_w32]. *)
+           Outside the guard at W = 32 lay finding F8 (repaired): [C03_w32_former_witness_repaired]. *)
 From Coq Require Import NArith ZArith List Bool.
 From SFV Require Import Base.Bytes Msgpack.Tree Gen.CodesGen Write.Writer Write.WSpec Write.Grammar
   Write.WGuard Write.WriteProofs Write.GrammarProofs.
@@ -58,20 +58,24 @@ Proof. exact op_guard_w64. Qed.
 Theorem C03_guard_w32 : forall op, len_below (2 ^ 31) op -> op_guard 32 op.
 Proof. exact op_guard_w32. Qed.
 
-(** FINDING: at W = 32 (release build, wrapping arithmetic) [finish_object] accepts an object of
-    2^31 declared pairs with none written ([length * 2] wraps to 0) and the document is reported
-    complete; the debug build panics instead.  All lengths are below 2^32. *)
-Theorem C03_refuted_w32 :
+(** Finding F8 (repaired in /repo by f3ffc61): [finish_object] used to compare with [length * 2], which
+    wraps to 0 at W = 32 for a declared length of 2^31, so that an object of 2^31 declared pairs with
+    none written was reported complete (release) or the call panicked (debug).  The model transcribes the
+    repaired test (parity and number of complete pairs); the former witness, which lies OUTSIDE the guard,
+    is now answered as the grammar says in both overflow modes.  (The guard itself is still needed for
+    the unbounded statement: after 2^32 - 1 accepted items the counter increment would overflow.) *)
+Theorem C03_w32_former_witness_repaired :
   exists ops,
-    Forall (len_below (2 ^ 32)) ops /\
-    snd (run 32 false ops) = [WOk; WOk] /\
+    Forall (len_below (2 ^ 32)) ops /\ ~ Forall (op_guard 32) ops /\
+    snd (run 32 false ops) = [WOk; WErr WR_ObjectLengthError] /\
+    snd (run 32 true ops) = [WOk; WErr WR_ObjectLengthError] /\
     snd (spec_run [] ops) = [WR_Ok; WR_ObjectLengthError] /\
-    finalize (fst (run 32 false ops)) = (WR_Ok, [0xdf; 0x80; 0; 0; 0]) /\
-    spec_completeb (fst (spec_run [] ops)) = false /\
-    snd (run 32 true ops) = [WOk; WPanic P_mul_overflow].
+    spec_completeb (fst (spec_run [] ops)) = false.
 Proof.
   exists [OStartObj (2 ^ 31); OFinObj].
-  split; [repeat constructor|vm_compute; repeat split; reflexivity].
+  split; [repeat constructor|]. split.
+  - intro H. inversion H as [|? ? H1 _]; subst. cbn in H1. vm_compute in H1. discriminate H1.
+  - vm_compute; repeat split; reflexivity.
 Qed.
 
 (** * Non-vacuity: a nested document with rejected calls in between, both widths *)
